@@ -45,7 +45,7 @@ CLASS_FLOORS = {"removed>=1": 0.2}
 
 @st.composite
 def stopping_cases(draw, max_inner=9):
-    g = draw(games.stopping_games(min_inner=2, max_inner=max_inner, dup_names=True, zero_edges=True))
+    g = draw(games.stopping_games(min_inner=2, max_inner=max_inner, dup_names=True, zero_edges=True, inner_finals=True))
     return dict(kind="game", game=g, prune=games.coin(draw))
 
 
@@ -215,6 +215,9 @@ def check_case(case):
     v = Verdict()
     prune = case["prune"]
     v.cls("prune" if prune else "no_prune")
+    g_ = case.get("game")
+    if isinstance(g_, dict) and any(any(t != f for _, t in g_["transition_list"][f]) for f in set(g_["final_states"])):
+        v.cls("non_absorbing_final_state")
     if case["kind"] == "medium":
         return check_medium(case, v)
     if case["kind"] == "siblings":
